@@ -47,7 +47,8 @@ ASSUME = ["longdouble reference matrices of lie_ref (validated against mpmath in
           "bspline time parametrisation from the docstring: segment i uses poses i..i+3 and covers [t_{i+1}, t_{i+2}), "
           "sample l of a segment is at t_{i+1} + l*interval, one extra sample at the end of the last segment",
           "tolerances c*u*scale with u the eps of the input dtype: chspline 64 u max|p|; bspline 256 u (rotation) and "
-          "256 u (1+max|t|) (translation); metrics 512 u (1+max|t|) x (alignment condition number s1/(s2+s3) for ape "
+          "256 u (1+max|t| + max_steps |dt|/max(theta, sqrt(u))) (translation; the last term is the conditioning of Exp/Log "
+          "of a relative pose with small rotation theta, never looser than the sqrt(u)|dt| C01/C02 allow); metrics 512 u (1+max|t|) x (alignment condition number s1/(s2+s3) for ape "
           "with align); geodesic 64 u / max(sin(angle), sqrt(u)) (an acos-based implementation would also pass)",
           "bspline continuity: jump at a knot <= 10 x the larger neighbouring step at interval 1e-3 (+ 256 u scale)",
           "ape/rpe: the statistics named STD / Median are accepted with either ddof (0/1) and any value between the two "
@@ -235,6 +236,19 @@ def random_walk(rng, nb, N, amax, tstep, t_scale=3.0):
     return np.stack(out, 1)
 
 
+def step_cond(Ms, u):
+    """max over consecutive poses of |dt| / max(theta, sqrt(u)): Exp/Log of a relative pose with a small
+    rotation theta lose accuracy u*|dt|/theta in the translation block (never worse than sqrt(u)*|dt|, the
+    translation accuracy C01/C02 demand of Exp/Log); that conditioning is not bspline's."""
+    if Ms.shape[1] < 2:
+        return 0.0
+    R = Ms[..., :3, :3]
+    rel = np.matmul(np.swapaxes(R[:, :-1], -1, -2), R[:, 1:])
+    th = f64(L.rotation_angle(rel))
+    dt = f64(np.sqrt(((Ms[:, 1:, :3, 3] - Ms[:, :-1, :3, 3]) ** 2).sum(-1)))
+    return float((dt / np.maximum(th, math.sqrt(u))).max())
+
+
 def pose_tensor(Ms, shape, dn):
     """(nb, N, 4, 4) matrices -> SE3 LieTensor of shape  shape + (N, 7)."""
     X = mats_to_se3(Ms)
@@ -296,7 +310,7 @@ def check_bspline_twist(ck, rng, N, interval, shape, dn):
     ref = np.matmul(Pin[:, seg], L.exp_matrix("se3", (t - seg.astype(LD))[None, :, None] * L.ld(xi)[:, None, :]))
     O = se3_mats(out).reshape(nb, M, 4, 4)
     er, et = mat_err(O, ref)
-    sc = 1.0 + float(np.abs(ref[..., :3, 3]).max())
+    sc = 1.0 + float(np.abs(ref[..., :3, 3]).max()) + step_cond(Ms, u)
     ck.count(mon, reg, key=(N, interval, shape, dn, xi.tobytes()))
     ck.ratio(mon, reg, er.max(), C_BS * u, entry, "constant_twist_rotation_wrong_at_sample_time", wit)
     ck.ratio(mon, reg, et.max(), C_BS * u * sc, entry, "constant_twist_translation_wrong_at_sample_time", wit)
@@ -330,7 +344,7 @@ def check_bspline_equiv(ck, rng, N, interval, shape, dn, extrapolate):
     A, B = se3_mats(a), se3_mats(b)
     Gm = se3_mats(Gt)
     er, et = mat_err(A, np.matmul(Gm, B))
-    sc = 1.0 + float(np.abs(A[..., :3, 3]).max()) + float(np.abs(B[..., :3, 3]).max())
+    sc = 1.0 + float(np.abs(A[..., :3, 3]).max()) + float(np.abs(B[..., :3, 3]).max()) + step_cond(Ms, u)
     ck.count(mon, reg, key=(N, interval, shape, dn, extrapolate, Ms[0, 0].tobytes()))
     ck.ratio(mon, reg, er.max(), C_BS * u, entry, "not_left_equivariant_rotation", wit)
     ck.ratio(mon, reg, et.max(), C_BS * u * sc, entry, "not_left_equivariant_translation", wit)
@@ -339,7 +353,7 @@ def check_bspline_equiv(ck, rng, N, interval, shape, dn, extrapolate):
         Pin = se3_mats(poses)
         e0r, e0t = mat_err(B[..., 0, :, :], Pin[..., 0, :, :])
         e1r, e1t = mat_err(B[..., -1, :, :], Pin[..., -1, :, :])
-        sc2 = 1.0 + float(np.abs(Pin[..., :3, 3]).max())
+        sc2 = 1.0 + float(np.abs(Pin[..., :3, 3]).max()) + step_cond(Ms, u)
         ck.count("bspline.ends", reg, key=(N, interval, shape, dn, Ms[0, 0].tobytes()))
         ck.ratio("bspline.ends", reg, max(e0r.max(), e0t.max() / sc2), C_BS * u, entry, "extrapolate_does_not_start_at_first_pose", wit)
         ck.ratio("bspline.ends", reg, max(e1r.max(), e1t.max() / sc2), C_BS * u, entry, "extrapolate_does_not_end_at_last_pose", wit)
@@ -366,7 +380,7 @@ def check_bspline_continuity(ck, rng, N, shape, dn, extrapolate):
         return
     O = f64(se3_mats(out).reshape(nb, M, 4, 4)[..., :3, :])
     d = np.sqrt(((O[:, 1:] - O[:, :-1]) ** 2).sum((-1, -2)))           # (nb, M-1) step sizes
-    sc = 1.0 + float(np.abs(O[..., 3]).max())
+    sc = 1.0 + float(np.abs(O[..., 3]).max()) + step_cond(Ms, u)
     worst, wj = 0.0, None
     for j in range(1, nseg + 1):
         i = j * k                                                       # knot sample index
@@ -969,7 +983,7 @@ def run_geodesic(ck):
                 case += 1
                 if not ck.mine(case):
                     continue
-                reps = (4 if thorough else 1) if si == 0 else 1
+                reps = (6 if thorough else 2) if si == 0 else 1
                 for _ in range(reps):
                     check_geodesic(ck, rng, kx, ky, dn, shape)
     ck.require("geodesic/angle:0", "geodesic/angle:(0,sqrt(u)]", "geodesic/angle:mid", "geodesic/angle:[pi-sqrt(u),pi]")
